@@ -91,7 +91,7 @@ def st_hist_random(tier, seed, d):
     specs = os.path.join(d, "specs.ndjson")
     n = {"quick": 1, "thorough": 20}[tier]
     plan = [("random", 110 * n), ("crash", 30 * n), ("floats", 20 * n), ("single", 20 * n),
-            ("deliver", 40 * n), ("fail", 30 * n), ("damage", 30 * n), ("arrays", 40 * n), ("travel", 24 * n), ("objapi", 20 * n)]
+            ("deliver", 40 * n), ("fail", 30 * n), ("damage", 40 * n), ("arrays", 40 * n), ("travel", 24 * n), ("objapi", 20 * n)]
     base = 0
     open(specs, "w").close()
     for prof, cnt in plan:
@@ -499,10 +499,19 @@ def cls_refresh_after_damage_to_loaded_item(v, f):
     damages = [(k, e) for k, e in enumerate(mine) if e["op"] == "Damage"]
     if not damages:
         return False
+    final_status = found[-1].get("obs", {}).get("status", {})
+    relevant = 0
     for k, d in damages:
-        if d["a"].get("kind") == "inject":
-            return False
         key = d["a"].get("key", "")
+        if d["a"].get("kind") == "inject":
+            # injected junk the replica ignores (a block name it did not load) explains nothing; an injected
+            # pack, or junk the replica did load, is not this finding
+            if key.endswith(".delta") and key[:-6] not in final_status:
+                continue
+            return False
+        if key.endswith(".delta") and key[:-6] not in final_status:
+            continue        # a damaged block the replica does not hold in memory cannot explain the stale state
+        relevant += 1
         loaded = False
         for e in mine[:k]:
             o = e.get("obs", {})
@@ -513,7 +522,7 @@ def cls_refresh_after_damage_to_loaded_item(v, f):
                 loaded = True
         if not loaded:
             return False
-    return True
+    return relevant > 0
 
 
 CLASSIFIERS = {"refresh_after_damage_to_loaded_item": cls_refresh_after_damage_to_loaded_item}
